@@ -31,11 +31,11 @@ CHECKS = {
    note="Trusted base: reflzma, liblzma. Nothing demanded between flushes. Sink never fails here (C09). Rare expensive payload shapes (almost incompressible data, noise with far copies, one match 16-40 MiB back in a 32/64 MiB dictionary) are part of the quick batch."),
  "C12": dict(engine="rsim", cat="exploration", ref="DESIGN.md §4 C12",
    technique="deterministic simulation of an append-only file of several writer sessions plus stream padding: exhaustive padding enumeration 0..16 for chains of <=3 streams x SingleStream, seeded longer chains, trailing garbage, under fragmentation and Read schedules; executable model of the concatenation law as oracle",
-   text="The short-chain padding space is enumerated completely (10470 cases); longer chains, mixed writers/checks, empty streams and schedules are seeded. Model: only aligned padding after streams is legal; SingleStream yields exactly the first content and errors iff a byte follows.",
+   text="The short-chain padding space is enumerated completely (10470 cases); longer chains, mixed writers/checks, empty streams, runs of 70-300 streams without content, sources that return (0, nil) now and then, and schedules are seeded; one case per batch has 40-56 MiB of stream padding and runs in a process of its own (a child killed by the Go runtime, e.g. by a stack overflow, is a violation). Model: only aligned padding after streams is legal; SingleStream yields exactly the first content and errors iff a byte follows.",
    note="Enumeration is complete only for the stated sub-space; stream lists are sampled."),
  "C13": dict(engine="rsim", cat="exploration", ref="DESIGN.md §4 C13",
    technique="deterministic simulation of reader schedules: seeded Read-length schedules (incl. 0 and 1 bytes, exactly-remaining, remaining+1) x source fragmentation (1-byte, short reads, EOF with data) x post-EOF reads against a sequential byte-stream model, for xz, LZMA and LZMA2 readers",
-   text="The schedule space (caller buffer sizes x source fragmentation x EOF delivery) is what the simulator owns and samples by seed over valid multi-block/multi-chunk/multi-stream streams of the three formats.",
+   text="The schedule space (caller buffer sizes x source fragmentation incl. calls that return (0, nil) x EOF delivery) is what the simulator owns and samples by seed over valid multi-block/multi-chunk/multi-stream streams of the three formats.",
    note="Streams sampled; a zero-length Read may return (0,nil) any time and (0,EOF) only once all content is delivered."),
  "C16": dict(engine="rsim+wsim", cat="exploration", ref="DESIGN.md §4 C16",
    technique="deterministic simulation with a simulated peer sending chunk histories: all chunk-kind sequences up to length 4 and all 256 control bytes in every reachable chunk state realised as concrete streams, seeded longer walks under fragmentation/Read schedules, oracle = format chunk-rule automaton cross-checked per case against reference decoder and liblzma; writer side: chunk headers walked in recorded writer histories",
@@ -48,11 +48,11 @@ CHECKS = {
    note="Trusted base: refxz/reflzma for sites and for the mutator's self-check (a still-valid edit is exit 2). Streams are sampled; beyond 16 KiB or when a deterministic cost proxy is exceeded, positions are strided with structure boundaries kept."),
  "C05": dict(engine="dfault", cat="fault_enumeration", ref="DESIGN.md §4 C05",
    technique="deterministic simulation with the single stored-data fault 'writer process died / tail lost': every cut position of each sampled stream (.xz single- and multi-stream, raw LZMA2, .lzma in three termination modes) is decoded behind the simulated source",
-   text="Exhaustive per stream (every proper prefix; for multi-stream files cuts on stream-end / 4-byte padding boundaries excluded as the property says); streams sampled from the library writers and the reference encoder. Oracle: open or some Read fails with a non-EOF error (a bare io.EOF from a constructor counts as end-of-stream, i.e. as failure of the property); bytes delivered before are a prefix of the content.",
+   text="Exhaustive per stream (every proper prefix; for multi-stream files cuts on stream-end / 4-byte padding boundaries excluded as the property says); streams sampled from the library writers and the reference encoder. Oracle: open or some Read fails with a non-EOF error (a bare io.EOF from a constructor counts as end-of-stream, i.e. as failure of the property); bytes delivered before are a prefix of the content; and a caller that reads on after that error (24 more reads, as bufio.Reader.WriteTo does after an error that came with data) is never told that the stream has ended.",
    note="Process-crash semantics (stored prefix intact). Streams > 16 KiB or very many blocks: strided cuts with all structure boundaries kept (counters in evidence say how many streams were enumerated completely)."),
  "C09": dict(engine="iofault", cat="fault_enumeration", ref="DESIGN.md §4 C09",
    technique="deterministic simulation with a fault-injecting sink and source: every sink-call index k x {fail once, fail forever} x {no bytes, partial write} over xz/LZMA/LZMA2 writer histories always finished with Close, Close; every source offset 0..len x {bare error, error together with data} over the three readers (incl. SingleStream)",
-   text="Per scenario the fault positions are enumerated completely (K re-counted per run); scenarios are sampled. Sink faults per call index: fail once / forever x nothing / a prefix / the full byte count persisted. Source faults per offset: sticky bare, sticky with the last good bytes, and transient (returned bare once, the source carries on). Writer oracle: no panic in any call, some call returns an error whenever the sink returned one, and a history in which every call returned nil leaves a complete valid stream. Reader oracle: the injected error (or one wrapping it) surfaces from open or Read, never io.EOF, no panic, delivered bytes a prefix of the content.",
+   text="Per scenario the fault positions are enumerated completely (K re-counted per run); scenarios are sampled. Sink faults per call index: fail once / forever x nothing / a prefix / the full byte count persisted. Source faults per offset: sticky bare, sticky with the last good bytes, and transient (returned bare once, the source carries on). Writer oracle: no panic in any call, some call returns an error whenever the sink returned one, and a history in which every call returned nil leaves a complete valid stream. Reader oracle: the injected error (or one wrapping it) surfaces from open or Read, never io.EOF, no panic, delivered bytes a prefix of the content, and reads issued after the error never end in a clean end of stream with content missing or wrong.",
    note="Source errors are sticky by design (io.ReadFull / LimitReader / byte adapters legitimately drop an error that arrives with enough data). Sinks never return short counts without an error. ByteWriter sinks with > 400 calls are strided."),
  "C11": dict(engine="dfault+rsim", cat="exploration", ref="DESIGN.md §4 C11",
    technique="deterministic simulation of hostile stored data for the three readers: seeded structure-aware fault injection (up to 3 stacked bit/byte/range faults on valid streams with CRC32s re-sealed half of the time, header-valid garbage incl. hostile uvarints/record counts/chunk headers, PRNG bytes) under fragmentation and Read schedules, with a per-Read step budget counted at the source seam and a wall-clock watchdog",
@@ -66,7 +66,7 @@ CHECKS = {
  "C15": dict(engine="gxzsim", cat="exploration", ref="DESIGN.md §4 C15, §2.6",
    technique="deterministic simulation of gxz invocation histories on a simulated directory (unmodified main() in-process over the simulated os), compared after every invocation with an executable model of the documented command line; outputs judged by independent decoders and liblzma, compressed inputs from liblzma / reference encoders",
    text="Seeded exploration of directory states x histories of 1-3 invocations x argument vectors (all listed flags, long/bundled forms, '--', operands before options, 0-3 operands with failing members, mixed formats under auto-detection, odd names). Operands include '-' among files, symbolic links (followed only with -f), directories, and a file left under the temporary output name. Compared: exit status class, resulting tree (names, modes, link targets, contents: decompressed exact, compressed by reference decoding), stdout.",
-   note="The simulated OS is validated against the real kernel on every run (fault-free histories repeated with the really built binary; byte-for-byte equal trees, status, stdout). The model encodes the documented semantics and the xz-utils conventions the property names; stderr is not compared; bool-literal file names that gflag would swallow are not generated."),
+   note="The simulated OS is validated against the real kernel on every run (fault-free histories repeated with the really built binary; byte-for-byte equal trees, status, stdout). The model encodes the documented semantics and the xz-utils conventions the property names; stderr is not compared. File names include ones that read like option values (1, true, 2024), names of 230-254 bytes (the file system's limit of 255 is simulated; one known finding, see known-findings.json), hard-linked operands, symbolic links under the target name and known suffixes contradicting the content."),
 
  "C14": dict(engine="conc", cat="exploration", ref="DESIGN.md §4 C14",
    technique="deterministic simulation of N caller tasks (each owning its own xz/LZMA/LZMA2 writer or reader) under a seeded lock-step scheduler that decides at every API call and every sink/source call which task proceeds - replayable, shrinkable schedules - with each task's complete observable result compared to its solo run; plus the same task sets run unsynchronised in a binary built with the Go race detector",
